@@ -17,6 +17,7 @@ import GocoinV.Proofs.C08_MultGenFull
 import GocoinV.Proofs.C08_Ecmult
 import GocoinV.Proofs.C08_EcmultFull
 import GocoinV.Proofs.C08_Lift
+import GocoinV.Proofs.C08_Examples
 
 namespace GocoinV.Props.C08
 open GocoinV.C08 GocoinV.Gen.Field5x52 GocoinV.Gen GocoinV.Proofs.C03
@@ -199,6 +200,67 @@ theorem add_correct (a b : XYZ) (ha : a.ok) (hb : b.ok) :
 theorem addXY_correct (a : XYZ) (b : XY) (ha : a.ok) (hb : b.ok) :
     (XYZ.addXY a b).ok ∧ (XYZ.addXY a b).toPoint = Secp.add a.toPoint b.toPoint := addXY_ok a b ha hb
 
+/-! Finite, kernel-checked instances of `add_correct` / `addXY_correct` (hypotheses discharged, reference side evaluated):
+    `gJ` = SetXY(pre_g[0]) stands for G, `g3J` = SetXY(pre_g[1]) for 3·G (limbs of the embedded table, Z = 1),
+    `XYZ.neg gJ` for −G, `infJ` = gJ with the Infinity flag. -/
+
+/-- distinct points (chord): G + 3G is the finite point 4·G -/
+example : (XYZ.add gJ g3J).ok ∧ (XYZ.add gJ g3J).toPoint = Secp.mul 4 Secp.G ∧ Secp.mul 4 Secp.G ≠ none := by
+  have h := add_correct gJ g3J gJ_Rp.1 g3J_Rp.1
+  rw [gJ_toPoint, g3J_toPoint, ref_G_add_3G.1] at h
+  exact ⟨h.1, h.2, ref_G_add_3G.2.1⟩
+/-- doubling inside Add: G + G = 2·G (finite) -/
+example : (XYZ.add gJ gJ).ok ∧ (XYZ.add gJ gJ).toPoint = Secp.mul 2 Secp.G ∧ Secp.mul 2 Secp.G ≠ none := by
+  have h := add_correct gJ gJ gJ_Rp.1 gJ_Rp.1
+  rw [gJ_toPoint, ref_G_add_G.1, ref_G_add_G.2.1] at h
+  exact ⟨h.1, h.2, ref_G_add_G.2.2⟩
+/-- inverse: G + (−G) = ∞ -/
+example : (XYZ.add gJ (XYZ.neg gJ)).ok ∧ (XYZ.add gJ (XYZ.neg gJ)).toPoint = none := by
+  have hn := neg_ok gJ gJ_Rp.1
+  have h := add_correct gJ (XYZ.neg gJ) gJ_Rp.1 hn.1
+  rw [hn.2, gJ_toPoint, ref_G_add_negG.1] at h
+  exact h
+/-- ∞ + G = G and G + ∞ = G -/
+example : (XYZ.add infJ gJ).toPoint = Secp.G ∧ (XYZ.add gJ infJ).toPoint = Secp.G := by
+  have h1 := (add_correct infJ gJ infJ_Rp.1 gJ_Rp.1).2
+  have h2 := (add_correct gJ infJ gJ_Rp.1 infJ_Rp.1).2
+  rw [infJ_Rp.2, gJ_toPoint] at h1 h2
+  exact ⟨h1, h2⟩
+/-- ∞ + ∞ = ∞ -/
+example : (XYZ.add infJ infJ).toPoint = none := by
+  have h := (add_correct infJ infJ infJ_Rp.1 infJ_Rp.1).2
+  rwa [infJ_Rp.2] at h
+
+/-- AddXY, distinct points: G + 3G (affine table entry pre_g[1]) = 4·G -/
+example : (XYZ.addXY gJ (preGXY 1)).ok ∧ (XYZ.addXY gJ (preGXY 1)).toPoint = Secp.mul 4 Secp.G := by
+  have h := addXY_correct gJ (preGXY 1) gJ_Rp.1 preGXY1_RpA.1
+  rw [gJ_toPoint, preGXY1_RpA.2, ← mul_G, ref_G_add_3G.1] at h
+  exact h
+/-- AddXY, doubling case: G + G (affine pre_g[0]) = 2·G -/
+example : (XYZ.addXY gJ (preGXY 0)).ok ∧ (XYZ.addXY gJ (preGXY 0)).toPoint = Secp.mul 2 Secp.G := by
+  have h := addXY_correct gJ (preGXY 0) gJ_Rp.1 preGXY0_RpA.1
+  rw [gJ_toPoint, preGXY0_RpA.2, show Gc.1 = Secp.G from rfl, ref_G_add_G.1, ref_G_add_G.2.1] at h
+  exact h
+/-- AddXY, inverse case: G + (−G) (affine, `XY.Neg` of pre_g[0]) = ∞ -/
+example : (XYZ.addXY gJ (XY.neg (preGXY 0))).toPoint = none := by
+  have hn := negXY_ok (preGXY 0) preGXY0_RpA.1
+  have h := (addXY_correct gJ (XY.neg (preGXY 0)) gJ_Rp.1 hn.1).2
+  rw [hn.2, gJ_toPoint, preGXY0_RpA.2, show Gc.1 = Secp.G from rfl, ref_G_add_negG.1] at h
+  exact h
+/-- AddXY, ∞ + G = G and G + (affine ∞) = G -/
+example : (XYZ.addXY infJ (preGXY 0)).toPoint = Secp.G ∧
+    (XYZ.addXY gJ { preGXY 0 with inf := true }).toPoint = Secp.G := by
+  have h1 := (addXY_correct infJ (preGXY 0) infJ_Rp.1 preGXY0_RpA.1).2
+  have h2 := (addXY_correct gJ { preGXY 0 with inf := true } gJ_Rp.1 preGXY0_RpA.1).2
+  rw [infJ_Rp.2, preGXY0_RpA.2] at h1
+  rw [gJ_toPoint, XY.toPoint_inf rfl] at h2
+  exact ⟨h1, h2⟩
+/-- Double on a finite on-curve operand: 2·G -/
+example : (XYZ.double gJ).ok ∧ (XYZ.double gJ).toPoint = Secp.mul 2 Secp.G := by
+  have h := double_correct gJ gJ_Rp.1
+  rw [gJ_toPoint, ref_G_add_G.2.1] at h
+  exact h
+
 /-- `XYZ.Neg` over the FULL input contract of the Go function: X and Z are only copied (NO hypothesis on them), Y is
     normalised before `Negate(1)`, so EVERY Y within `Normalize`'s contract is admitted — magnitude ≤ 32, which
     contains every Y that Mul/Sqr accept (≤ 8) and every Y the library produces (≤ 4): X, Z and the Infinity flag
@@ -284,9 +346,47 @@ theorem ecmult_correct_partial (a : XYZ) (ha : a.ok) (hA : OnC a.toPoint) (na : 
     ∃ r, ecmult a na ng = some r ∧ Rp r (na • mkPt a.toPoint hA + ng • Gc) :=
   ecmult_mul a ha hA na ng hng hn hl
 
+/-- NON-TRIVIAL instance of `ecmult_correct_partial`: at A = G (held as SetXY(pre_g[0]), a finite on-curve operand) BOTH
+    hypotheses are discharged — n·G = ∞ is C03's `generator_order` (`order_G`), mul_lambda(G) = λ·G is the kernel
+    evaluation `Secp.mul λ G = (β·Gx mod p, Gy)` (`mul_lambda_G`) — so  ECmult(G, na, ng) = na·G + ng·G  for EVERY
+    integer na (0, n, above n, negative) and every ng < 2^256, with no hypothesis left. -/
+theorem ecmult_correct_at_G (na : Int) (ng : Nat) (hng : ng < 2 ^ 256) :
+    ∃ r, ecmult gJ na ng = some r ∧ Rp r (na • Gc + ng • Gc) := by
+  have h := ecmult_correct_partial gJ gJ_Rp.1 gJ_onC na ng hng gJ_order gJ_lambda
+  rwa [gJ_mkPt] at h
+
+/-- the hypotheses of `ecmult_correct_partial` are satisfiable by a finite point (A = G) -/
+example : ∃ (a : XYZ) (ha : a.ok) (hA : OnC a.toPoint), a.inf = false ∧ a.toPoint = Secp.G ∧
+    ((CurveConsts.order : Nat) : Int) • mkPt a.toPoint hA = 0 ∧
+    (∀ A' : CurvePt, Rp (XYZ.mulLambda a) A' → A' = ((CurveConsts.lambda : Nat) : Int) • mkPt a.toPoint hA) :=
+  ⟨gJ, gJ_Rp.1, gJ_onC, rfl, gJ_toPoint, gJ_order, gJ_lambda⟩
+
+/-- scalars n and 0 on the finite operand G: n·G + 0·G = ∞ -/
+example : ∃ r, ecmult gJ (CurveConsts.order : Nat) 0 = some r ∧ r.toPoint = none := by
+  obtain ⟨r, h1, h2⟩ := ecmult_correct_at_G (CurveConsts.order : Nat) 0 (by norm_num)
+  refine ⟨r, h1, ?_⟩
+  rw [h2.2, zero_nsmul, add_zero, natCast_zsmul]
+  exact congrArg Subtype.val order_G
+
 example : ∃ r, ecmult { x := setInt 0, y := setInt 0, z := setInt 0, inf := true } 5 7 = some r :=
   (ecmult_sum _ ⟨by decide, by decide, by decide, fun h => by simp at h⟩ (by rfl) 5 7 (by norm_num)).elim
     fun r h => h.elim fun _ h => h.elim fun _ h => ⟨r, h.2.2.1⟩
+
+/-- `XYZ.precomp(w)` (the definition the oracle's `precomp` op runs against `VerifPrecompXYZ`): for EVERY operand within
+    the contract standing for a curve point A, entry i (i < 2^(w−2)) is within the contract and stands for (2i+1)·A. -/
+theorem precomp_correct (a : XYZ) (A : CurvePt) (ha : Rp a A) (w i : Nat) (hi : i < 2 ^ (w - 2)) :
+    Rp ((XYZ.precomp a w).getD i default) ((2 * i + 1) • A) := precomp_TabJ ha w i hi
+
+example : Rp ((XYZ.precomp gJ 5).getD 7 default) (15 • Gc) := precomp_correct gJ Gc gJ_Rp 5 7 (by decide)
+
+/-- `Number.rsh_x` (oracle op `rshx`) for EVERY integer of either sign and every width: the returned word and the
+    shifted receiver recompose the number, x = rest·2^bits + word with 0 ≤ word < 2^bits. -/
+theorem rshX_sound (x : Int) (bits : Nat) :
+    x = (rshX x bits).2 * 2 ^ bits + (rshX x bits).1 ∧ 0 ≤ (rshX x bits).1 ∧ (rshX x bits).1 < 2 ^ bits := rshX_spec x bits
+
+/-- `Number.split` on non-negative numbers (oracle op `split`; `ECmult` splits ng at bit 128): a = lo + hi·2^bits, lo < 2^bits. -/
+theorem split_sound (a bits : Nat) :
+    a = (split a bits).1 + (split a bits).2 * 2 ^ bits ∧ (split a bits).1 < 2 ^ bits := split_spec a bits
 
 /-- `XY.SetXO` (decompression, x-only lifting, the core of ParsePubkey 02/03 and DecompressPoint): for EVERY x of
     magnitude ≤ 8 (x goes into Sqr and Mul) the result keeps x, y is fully normalised; if x³+7 is a square in F_p the point is on the curve,
@@ -318,7 +418,9 @@ theorem split_exp_bound (a : Int) :
 
   -- OPEN: ecmult_correct without hypotheses on A: `ecmult_sum_correct` is proved unconditionally; turning
   --   na1·A + na_lam·A' into na·A needs n·A = 0 and A' = λ·A (`ecmult_correct_partial` assumes them); both follow
-  --   from #E(F_p) = n, which is not proved (explicit hypothesis by design).
+  --   from #E(F_p) = n, which is not proved (explicit hypothesis by design). At A = G both are discharged
+  --   (`ecmult_correct_at_G`: n·G = ∞ is C03's generator_order, mul_lambda(G) = λ·G one kernel evaluation); for a
+  --   general A = k·G the second one would need "the endomorphism is additive", which is not proved either.
   -- OPEN: XY.SetXYZ / GetPublicKey (Field.InvVar = big.Int.ModInverse, modelled by Secp.invMod; byte-level glue
   --   beVal ∘ getB32 ∘ normalize not proved), mulLambda.
   -- OPEN (input contract wider than the theorem): `XYZ.AddXY` only normalises a.Y, so the Go code also admits a.Y of
